@@ -450,4 +450,25 @@ theorem maxStreamID_monotone (reg : List (Bytes × Bytes)) (s : SrvState) (op : 
     · exact hbump
     · exact hbump
 
+
+/-! ### non-vacuity -/
+
+def validReq (id : Nat) : Req :=
+  { id := id, endStream := false,
+    raw := [⟨str ":method", str "POST"⟩, ⟨str ":scheme", str "http"⟩, ⟨str ":path", str "/s/m"⟩,
+            ⟨str ":authority", str "a"⟩, ⟨str "content-type", str "application/grpc"⟩, ⟨str "te", str "trailers"⟩] }
+
+/-- a well-formed request is handled and its handler starts -/
+example : serve (initState 1 16777216) (validReq 1) = .handle none := by decide
+
+/-- the second request at limit 1 is refused with REFUSED_STREAM; an even id is a connection error;
+GET is answered 405; a bad `-bin` value 400 -/
+example :
+    let reg := [(str "s", str "m")]
+    let s1 := (step reg (initState 1 16777216) (.headers (validReq 1))).1
+    s1.active.length = 1 ∧ serve s1 (validReq 3) = .rst 7 ∧ serve s1 (validReq 4) = .connError ∧
+    serve (initState 2 16777216) { validReq 1 with raw := ⟨str ":method", str "GET"⟩ :: (validReq 1).raw.tail } = .earlyAbort 405 13 ∧
+    serve (initState 2 16777216) { validReq 1 with raw := (validReq 1).raw ++ [⟨str "a-bin", str "!!!"⟩] } = .earlyAbort 400 13 := by
+  decide
+
 end GrpcProofs.C12
